@@ -1149,7 +1149,30 @@ def check_fix(ctx, fi, est):
     m = est.params[1]
     first = est.body[0] if est.body else None
     ok = isinstance(first, ast.Assign) and U(first.targets[0]) == m and U(first.value) == 'self.fix_measurements(%s)' % m
-    ctx.ob('spelling', est, first or est.node, ok, 'estimate must replace the measurement list by its normalised form before anything else uses it')
+    if ok:
+        ctx.ob('spelling', est, first or est.node, ok, 'estimate must replace the measurement list by its normalised form before anything else uses it')
+        return
+    # not normalised at the entry point: then EVERY method that walks the measurement tuples has to normalise its own argument first (the
+    # solvers hand the caller's list to _setup and, for RDA / IG, to _lipschitz as well)
+    n_cons = 0
+    for q_ in ('_setup', '_lipschitz'):
+        cons = ctx.repo.func(INF, 'FactoredInference.' + q_)
+        p_ = cons.params[1]
+        walks = [x for x in ast.walk(cons.node) if isinstance(x, ast.For) and U(x.iter) == p_]
+        if not walks:
+            continue
+        n_cons += 1
+        body = [s_ for s_ in cons.node.body if not (isinstance(s_, ast.Expr) and isinstance(s_.value, ast.Constant))]
+        norm_at = [i_ for i_, s_ in enumerate(body) if isinstance(s_, ast.Assign) and len(s_.targets) == 1 and U(s_.targets[0]) == p_
+                   and U(s_.value) == 'self.fix_measurements(%s)' % p_]
+        first_use = min([i_ for i_, s_ in enumerate(body) if any(isinstance(x, ast.Name) and x.id == p_ and isinstance(x.ctx, ast.Load) for x in ast.walk(s_))] or [10 ** 9])
+        ok_c = bool(norm_at) and norm_at[0] <= first_use
+        ctx.ob('spelling', cons, body[norm_at[0]] if norm_at else cons.node, ok_c,
+               'estimate no longer normalises the measurement list, so %s - which walks the measurement tuples - must normalise its own argument before '
+               'anything else uses it%s' % (q_, '' if ok_c else ': a projection given as a bare string or a list, or an omitted query, reaches the loop as the '
+               'caller wrote it'), construct='normalisation of the measurements in ' + q_)
+    if n_cons == 0:
+        raise AnalysisError('FactoredInference: no method walks the measurement list')
 
 
 # ---- the smoothness bound ---------------------------------------------------------------------------------------------------------------
